@@ -292,3 +292,48 @@ Definition sv_wellformed_mod (F : file) (m : module) : bool :=
   forallb (item_ok F te) (m_items m).
 Definition sv_wellformed (F : file) : bool :=
   nodup_ids (map m_name (f_modules F)) && forallb (sv_wellformed_mod F) (f_modules F).
+
+(* ---- where SvProofs.sv_selfdet_eq_ctx applies: every assignment of the text has a right-hand side whose
+        context-sensitive operators all see operands of one width, equal to the width of the target
+        (loop headers are exempt: a 32-bit counter compared with a narrow literal only zero-extends) ---- *)
+Definition assign_uniform (te : tenv) (l r : expr) : bool :=
+  match lhs_dims te l with
+  | _ :: _ => true
+  | [] => uniform te l && uniform te r && (selfw te l =? selfw te r)
+  end.
+Fixpoint stmt_uniform (te : tenv) (s : stmt) {struct s} : bool :=
+  match s with
+  | SBlocking l r | SNonBlocking l r => assign_uniform te l r
+  | SIf c t f =>
+      uniform te c &&
+      (fix all (l : list stmt) : bool := match l with [] => true | x :: r => stmt_uniform te x && all r end) t &&
+      (fix all (l : list stmt) : bool := match l with [] => true | x :: r => stmt_uniform te x && all r end) f
+  | SFor _ _ _ _ _ _ body =>
+      (fix all (l : list stmt) : bool := match l with [] => true | x :: r => stmt_uniform te x && all r end) body
+  end.
+Definition item_uniform (te : tenv) (it : item) : bool :=
+  match it with
+  | IAssign l r => assign_uniform te l r
+  | IComb _ b | IFF _ b => forallb (stmt_uniform te) b
+  | IInst _ _ _ => true
+  end.
+Definition sv_uniform (F : file) : bool :=
+  forallb (fun m => forallb (item_uniform (mod_tenv m)) (m_items m)) (f_modules F).
+
+Fixpoint stmt_lits_fit (s : stmt) {struct s} : bool :=
+  match s with
+  | SBlocking l r | SNonBlocking l r => lits_fit l && lits_fit r
+  | SIf c t f =>
+      lits_fit c &&
+      (fix all (l : list stmt) : bool := match l with [] => true | x :: r => stmt_lits_fit x && all r end) t &&
+      (fix all (l : list stmt) : bool := match l with [] => true | x :: r => stmt_lits_fit x && all r end) f
+  | SFor _ i _ b _ st body =>
+      lits_fit i && lits_fit b && lits_fit st &&
+      (fix all (l : list stmt) : bool := match l with [] => true | x :: r => stmt_lits_fit x && all r end) body
+  end.
+Definition sv_lits_fit (F : file) : bool :=
+  forallb (fun m => forallb (fun it => match it with
+                                       | IAssign l r => lits_fit l && lits_fit r
+                                       | IComb _ b | IFF _ b => forallb stmt_lits_fit b
+                                       | IInst _ _ cs => forallb (fun c => lits_fit (snd c)) cs
+                                       end) (m_items m)) (f_modules F).
